@@ -42,3 +42,7 @@ claim("C14",
   "Decides: the search statements (strict cursor on unique auto-increment sort_id, LIKE on the converted pattern, state mask, every tag, newest first, LIMIT), LastSortId = sort_id of the last row, cursor present iff page full and repeating the query with SortId = &LastSortId, re-search after lazy time-outs. Not decided: completeness under concurrent writes (engine), LIKE/JSON-path semantics (F15), API-layer validation and cursor signature (planned under C13).",
   "SQL spec comparison incl. dynamic tag filter reconstruction, result provenance classification, literal templates with governing condition",
   "DESIGN.md §5 C14")
+claim("C15",
+  "Decides totality and agreement of the front-end tables: every switch over a closed kernel enum whose default panics lists all constants (StatusCode.String, gRPC code table, Response.Status, state tables); HTTP code = status/100 is an intended code for all 30 constants; each gRPC outcome flag compares its own kind's status with the constant that denotes the outcome and that the kind's coroutine can produce; per request kind both protocols populate the same kernel request fields and a coroutine is registered; every HTTP handler path writes exactly one reply. Not decided: wire encoding, value-level equivalence of the two protocols.",
+  "enum-switch exhaustiveness over go/types constants with call-site guard exclusion, flag/constant table check against statuses collected from the coroutine call graph, request-literal field-set comparison, go/cfg event-count dataflow (one reply per path)",
+  "DESIGN.md §5 C15")
